@@ -62,3 +62,19 @@ Theorem jit_flags_agree :
   gen_jit_flags_mbuff_no_std = gen_jit_flags_mbuff /\ gen_jit_flags_fixed_no_std = gen_jit_flags_fixed /\
   gen_jit_flags_raw_no_std = gen_jit_flags_raw /\ gen_jit_flags_nodata_no_std = gen_jit_flags_nodata.
 Proof. repeat split. Qed.
+
+(** C12: the writing pass never trips the assertion of emit_bytes!.  The sizing pass counts the same emissions (same
+    arguments: C20_jit_memory_size) and reaches [code_len]; the buffer is that rounded up to a page; so every write of the
+    second pass -- [size] bytes at an [offset] with offset + size <= code_len, the last byte of an image that fills its
+    pages exactly included -- passes the assertion. *)
+Theorem emit_bytes_fits code_len len offset size :
+  0 <= offset -> 0 <= size -> offset + size <= code_len -> code_len + 8192 < 2 ^ 64 ->
+  gen_jit_mem_size_std code_len = Ok len -> gen_emit_bytes_fits offset size len = Ok true.
+Proof.
+  intros H0 H1 H2 H3 Hl.
+  destruct (mem_size_spec code_len) as (sz & Hsz & _ & Hge & _); [lia|lia|].
+  rewrite Hsz in Hl. injection Hl as <-.
+  unfold gen_emit_bytes_fits, cadd, chk.
+  rewrite (proj2 (in_tyb_spec USZ (offset + size))) by (unfold in_ty, tmin, tmax; cbn [signed bits]; lia).
+  cbn [bind]. destruct (Z.leb_spec (offset + size) sz); [reflexivity|lia].
+Qed.
